@@ -59,11 +59,14 @@ func genC06(w *simrt.Choices, tier string, avoid map[string]bool) Case {
 	k := &c06Case{Store: StoreCfg{Backend: []string{"mem", "file"}[w.Choose(2)]}, Net: netProfile(w)}
 	k.Net.MaxDelay = []time.Duration{0, 3 * time.Millisecond}[w.Choose(2)]
 	k.Limit = []int{1024, 2000, 4096, 10000, 65536}[w.Choose(5)]
-	if tier == "thorough" && w.Choose(4) == 0 {
+	if tier == "thorough" && w.Choose(10) == 0 {
 		k.Limit = []int{262144, 1 << 20, 4 << 20}[w.Choose(3)]
 	}
 	if k.Limit > 8192 && k.Net.SegMode == 2 {
 		k.Net.SegMode = 1
+	}
+	if k.Limit > 65536 && k.Net.BufCap > 0 && k.Net.BufCap < 65536 {
+		k.Net.BufCap = 65536
 	}
 	n := 1 + w.Choose(4)
 	for i := 0; i < n; i++ {
@@ -326,6 +329,10 @@ func init() {
 		Gen:   genC06,
 		Run:   runC06,
 		Config: func(cs Case) simrt.Config {
+			if cs.(*c06Case).Limit > 65536 {
+				// up to six messages of up to three times a multi-megabyte limit
+				return simrt.Config{NoJumps: true, MaxSteps: 60000000, MaxSimTime: 48 * time.Hour}
+			}
 			return simrt.Config{NoJumps: true, MaxSteps: 5000000, MaxSimTime: 24 * time.Hour}
 		},
 		BudgetIsViolation: true,
